@@ -9,6 +9,7 @@ CONSTANTS
   WaitData = 2
   SockT = 2
   V6 = FALSE
+  LateDrop = FALSE
   KF = {}
   Cmds <- c_CmdsT
   Datas <- c_DatasQ
